@@ -520,19 +520,24 @@ def scan_on(chk: Check, rule: str) -> None:
         for k, v in al.items():
             if isinstance(v, ast.Call) and attr_path(v.func) == ("range",) and len(v.args) == 2:
                 node_rng[k] = (_lin(v.args[0], nsym), _lin(v.args[1], nsym))
-        # the test guarding the yield (the address-presence test aside)
-        tests = []
-        for n in walk_no_nested(f.node):
-            if isinstance(n, ast.If) and any(isinstance(y, ast.Yield) for s_ in n.body for y in ast.walk(s_)):
-                parts = n.test.values if isinstance(n.test, ast.BoolOp) and isinstance(n.test.op, ast.And) else [n.test]
-                parts = [p for p in parts if not (isinstance(p, ast.Compare) and isinstance(p.ops[0], (ast.Is, ast.IsNot)))]
-                if parts:
-                    tests.append((n, parts))
-        if len(tests) != 1:
+        # what is known to hold where the node is yielded (the address-presence test aside):
+        # nested ifs, one combined condition or ``continue`` guards give the same facts
+        ys = [y for y in walk_no_nested(f.node) if isinstance(y, ast.Yield)]
+        if len(ys) != 1:
+            raise Outside("expected one yield")
+        cfg0 = CFG(f.node)
+        parts_v = [(t_, v_) for t_, v_ in cfg0.facts_at(cfg0.node_of(ys[0]))
+                   if not isinstance(t_, ast.stmt)
+                   and not (isinstance(t_, ast.Compare) and isinstance(t_.ops[0], (ast.Is, ast.IsNot)))]
+        if not parts_v:
             raise Outside("expected one intersection test guarding the yield")
         cons: List[Con] = []
-        for p in tests[0][1]:
+        for p, val in parts_v:
+            while isinstance(p, ast.UnaryOp) and isinstance(p.op, ast.Not):
+                p, val = p.operand, not val
             if isinstance(p, ast.Call) and attr_path(p.func) == ("range",) and len(p.args) == 2:
+                if not val:
+                    raise Transformed("nodes are kept when the intersection with the query is EMPTY")
                 a, b = p.args
                 lows = [_lin(x, nsym) for x in a.args] if isinstance(a, ast.Call) and attr_path(a.func) == ("max",) \
                     else [_lin(a, nsym)]
@@ -543,14 +548,20 @@ def scan_on(chk: Check, rule: str) -> None:
                         cons.extend(_constraint(lo, "Lt", hi))
             elif isinstance(p, ast.Compare):
                 terms = [p.left] + list(p.comparators)
+                if not val and len(p.ops) != 1:
+                    raise Outside("negated chain %s" % unparse(p))
                 for x, op, y in zip(terms, p.ops, terms[1:]):
                     on = type(op).__name__
                     if on not in NEG:
                         raise Outside("comparison %s" % unparse(p))
+                    if not val:
+                        on = NEG[on]
                     cons.extend(_constraint(_lin(x, nsym), on, _lin(y, nsym)))
             else:
                 raise Outside("intersection test %s" % unparse(p))
-        tests = [tests[0][0]]
+    except Transformed as e:
+        chk.ob(rule, key + ":intersects-half-open", False, f.loc(), "%s: %s" % (key, e), 2)
+        return
     except Outside as e:
         raise AnalysisError("%s is outside the boundary-logic fragment: %s" % (key, e))
     got = _tight(cons)
@@ -577,8 +588,8 @@ def scan_on(chk: Check, rule: str) -> None:
     chk.ob(rule, key + ":address-known", guard, f.loc(),
            "nodes_on must yield only nodes whose address is known (not None)", 2)
     ys = [y for y in walk_no_nested(f.node) if isinstance(y, ast.Yield)]
-    under = len(ys) == 1 and any(any(y in list(ast.walk(s)) for s in tests[0].body) for y in ys)
-    chk.ob(rule, key + ":yields-under-test", under, f.loc(), "the node must be yielded exactly under the test", 1)
+    chk.ob(rule, key + ":yields-under-test", len(ys) == 1 and bool(parts_v), f.loc(),
+           "the node must be yielded exactly under the test", 1)
 
 
 def scan_at(chk: Check, rule: str) -> None:
